@@ -378,3 +378,172 @@ theorem noRejConstruct_of_noConstruct : ∀ (ops : List Op) (s : DStore),
     simp [Op.isConstruct] at this
 
 end DagStore
+
+/-! ## mixed histories: each side evolves as if the other were not there -/
+namespace DagStore
+open List
+
+/-- every edge joins two nodes of the same side of the boundary -/
+def SepE (k : Nat) (E : List (Nat × Nat)) : Prop := ∀ e ∈ E, (e.1 < k ∧ e.2 < k) ∨ (k ≤ e.1 ∧ k ≤ e.2)
+
+def Op.isLow (k : Nat) (op : Op) : Bool := op.ids.all fun i => decide (i < k)
+def Op.isHigh (k : Nat) (op : Op) : Bool := op.ids.all fun i => decide (k ≤ i)
+
+/-- the graph restricted to the nodes below the boundary -/
+def lowG (k : Nat) (g : EState) : EState := { g with E := lowE k g.E }
+
+theorem mem_lowE {k : Nat} {E : List (Nat × Nat)} {e : Nat × Nat} : e ∈ lowE k E ↔ e ∈ E ∧ e.1 < k ∧ e.2 < k := by
+  simp [lowE]
+
+theorem sepE_edges_deepCopy {s : DStore} (hs : DWF0 s) : SepE s.n (edges (deepCopy s)) := by
+  intro e he
+  rw [edges_deepCopy, mem_append] at he
+  rcases he with he | he
+  · exact Or.inl (edges_range hs he)
+  · obtain ⟨e0, _, rfl⟩ := mem_map.1 he
+    exact Or.inr ⟨by simp [shiftE], by simp [shiftE]⟩
+
+theorem asked_low {k n : Nat} {op : Op} (hc : op.isConstruct = false) (hl : op.isLow k = true) :
+    ∀ e ∈ asked n op, e.1 < k ∧ e.2 < k := by
+  intro e he
+  have hi := asked_ids n op hc e he
+  simp only [Op.isLow, all_eq_true, decide_eq_true_eq] at hl
+  exact ⟨hl _ hi.1, hl _ hi.2⟩
+
+theorem asked_high {k n : Nat} {op : Op} (hc : op.isConstruct = false) (hh : op.isHigh k = true) :
+    ∀ e ∈ asked n op, k ≤ e.1 ∧ k ≤ e.2 := by
+  intro e he
+  have hi := asked_ids n op hc e he
+  simp only [Op.isHigh, all_eq_true, decide_eq_true_eq] at hh
+  exact ⟨hh _ hi.1, hh _ hi.2⟩
+
+/-- a call that stays on one side keeps the two sides apart -/
+theorem apply_sepE (g : EState) (k : Nat) (op : Op) (hc : op.isConstruct = false)
+    (hside : op.isLow k = true ∨ op.isHigh k = true) (hs : SepE k g.E) : SepE k (g.apply op).E := by
+  have hadd : SepE k (g.E ++ (asked g.n op).filter fun e => decide (e ∉ g.E)) := by
+    intro e he
+    rw [mem_append] at he
+    rcases he with he | he
+    · exact hs e he
+    · have hm := (mem_filter.1 he).1
+      rcases hside with h | h
+      · exact Or.inl (asked_low hc h e hm)
+      · exact Or.inr (asked_high hc h e hm)
+  have hsub : ∀ (P : Nat × Nat → Bool), SepE k (g.E.filter P) := fun P e he => hs e (mem_filter.1 he).1
+  cases op with
+  | setParents v a f => exact hadd
+  | setChildren v a f => exact hadd
+  | rshift v o f => exact hadd
+  | lshift v o f => exact hadd
+  | construct nm ps cs fp fc => simp [Op.isConstruct] at hc
+  | delChildren v => exact hsub _
+  | delItem v nm =>
+    simp only [EState.apply]
+    split
+    · exact hsub _
+    · exact hs
+
+/-- a call on the low side acts on the low part of the graph exactly as on the whole graph -/
+theorem lowG_apply (g : EState) (k : Nat) (op : Op) (hc : op.isConstruct = false) (hl : op.isLow k = true)
+    (hs : SepE k g.E) : lowG k (g.apply op) = (lowG k g).apply op := by
+  have hids : ∀ i ∈ op.ids, i < k := by
+    simpa only [Op.isLow, all_eq_true, decide_eq_true_eq] using hl
+  have hadd : lowE k (g.E ++ (asked g.n op).filter fun e => decide (e ∉ g.E)) =
+      lowE k g.E ++ (asked g.n op).filter fun e => decide (e ∉ lowE k g.E) := by
+    rw [lowE, filter_append, filter_filter]
+    congr 1
+    apply filter_congr
+    intro e he
+    have hlow := asked_low hc hl e he
+    have : decide (e.1 < k ∧ e.2 < k) = true := by simpa using hlow
+    rw [this, Bool.true_and]
+    congr 1
+    rw [mem_lowE]
+    simp [hlow]
+  have hdel : ∀ (P : Nat × Nat → Bool), lowE k (g.E.filter P) = (lowE k g.E).filter P := by
+    intro P
+    simp only [lowE, filter_filter]
+    apply filter_congr
+    intro e _
+    exact Bool.and_comm _ _
+  cases op with
+  | setParents v a f => simp only [lowG, EState.apply, hadd]; congr
+  | setChildren v a f => simp only [lowG, EState.apply, hadd]; congr
+  | rshift v o f => simp only [lowG, EState.apply, hadd]; congr
+  | lshift v o f => simp only [lowG, EState.apply, hadd]; congr
+  | construct nm ps cs fp fc => simp [Op.isConstruct] at hc
+  | delChildren v => simp only [lowG, EState.apply, hdel]
+  | delItem v nm =>
+    have hv : v < k := hids v (by simp [Op.ids])
+    -- the edges out of `v` are the same in the whole graph and in its low part
+    have hsame : g.E.filter (fun e => e.1 == v && g.names e.2 == nm) =
+        (lowE k g.E).filter (fun e => e.1 == v && g.names e.2 == nm) := by
+      simp only [lowE, filter_filter]
+      apply filter_congr
+      intro e he
+      cases hp : (e.1 == v && g.names e.2 == nm) with
+      | false => simp
+      | true =>
+        have h1 : e.1 = v := by
+          simp only [Bool.and_eq_true, beq_iff_eq] at hp; exact hp.1
+        have : e.1 < k ∧ e.2 < k := by
+          rcases hs e he with h | h
+          · exact h
+          · omega
+        simp [this]
+    simp only [lowG, EState.apply]
+    rw [← hsame]
+    split
+    · simp only; rw [hdel]
+    · rfl
+
+/-- **mixed histories**: when every call of a history stays on one side of the boundary, the edges among the
+low nodes at the end are what the low-side calls alone (same outcomes) make of the low part of the graph —
+the high-side calls might as well not have happened — and the two sides are still apart -/
+theorem replay_low_mixed (k : Nat) : ∀ (h : List (Op × Outcome)) (g : EState), SepE k g.E →
+    (∀ x ∈ h, x.1.isConstruct = false ∧ (x.1.isLow k = true ∨ x.1.isHigh k = true)) →
+    lowE k (g.replay h).E = ((lowG k g).replay (h.filter fun x => x.1.isLow k)).E ∧ SepE k (g.replay h).E
+  | [], g, hs, _ => ⟨rfl, hs⟩
+  | (op, .rej) :: r, g, hs, hh => by
+    have ih := replay_low_mixed k r g hs (fun x hx => hh x (by simp [hx]))
+    simp only [EState.replay, filter_cons]
+    split
+    · simpa [EState.replay] using ih
+    · exact ih
+  | (op, .ok) :: r, g, hs, hh => by
+    obtain ⟨hc, hside⟩ := hh (op, .ok) (by simp)
+    have hs' := apply_sepE g k op hc hside hs
+    have ih := replay_low_mixed k r (g.apply op) hs' (fun x hx => hh x (by simp [hx]))
+    simp only [EState.replay, filter_cons]
+    cases hl : op.isLow k with
+    | true =>
+      simp only [if_true, EState.replay]
+      rw [← lowG_apply g k op hc hl hs]
+      exact ih
+    | false =>
+      simp only [Bool.false_eq_true, if_false]
+      have hhigh : op.isHigh k = true := by
+        rcases hside with h | h
+        · rw [hl] at h; cases h
+        · exact h
+      have hids : ∀ i ∈ op.ids, k ≤ i := by
+        simpa only [Op.isHigh, all_eq_true, decide_eq_true_eq] using hhigh
+      have e1 : lowG k (g.apply op) = lowG k g := by
+        have hn : (g.apply op).n = g.n ∧ (g.apply op).names = g.names := by
+          cases op <;> first | exact ⟨rfl, rfl⟩ | (simp [Op.isConstruct] at hc) | skip
+          · simp only [EState.apply]; split <;> exact ⟨rfl, rfl⟩
+        cases hg : g.apply op with
+        | mk n' names' E' =>
+          rw [hg] at hn
+          have hE : lowE k E' = lowE k g.E := by
+            have := apply_lowE g k op hc hids
+            rw [hg] at this; exact this
+          simp only [lowG, hE]
+          cases g
+          simp only at hn ⊢
+          obtain ⟨rfl, rfl⟩ := hn
+          rfl
+      rw [← e1]
+      exact ih
+
+end DagStore
